@@ -277,7 +277,7 @@ def decide(ctx: Ctx, cases: list[dict], cfg: str = "PBExprTrace"):
                 traces[key] = t
                 owners[key] = {"forms": [], "case": c, "errs": [o.get("err") for o in obs]}
             owners[key]["forms"].append(form)
-    verdicts = tlc.validate_traces(ctx, "PBExprTrace", cfg, list(traces.values()), chunk=4000)
+    verdicts = tlc.validate_traces(ctx, "PBExprTrace", cfg, list(traces.values()), chunk=1500)
     for key, v in verdicts.items():
         t, own = traces[key], owners[key]
         ctx.count(key, nontrivial=_interesting(t["events"]), n=0)
